@@ -102,6 +102,42 @@ def run(ctx):
     r1b = chk.rule("C10.R1b", "bytes read from a user file are never indexed or sliced without a dominating length check",
                    "a file truncated at any byte (also 0, 1, 2 bytes) is tolerated")
     n_ix = 0
+    # functions that return the bytes of a file, and parameters that receive such bytes at some call site (followed through local calls)
+    def _local_taint(b_):
+        tl = set()
+        for (bb_, t_) in b_.calls():
+            n_ = callee_name(t_)
+            if n_.endswith("read_to_end") or n_.endswith("read_to_string") or n_.endswith("Read::read"):
+                if len(t_["args"]) > 1 and t_["args"][1]["k"] != "const":
+                    tl.add(repr(apath(b_.expr_operand(t_["args"][1]))[0]))
+        return tl
+    file_fns = set()
+    for fk in sorted(reach):
+        b_ = prog.body(fk)
+        if prog.fns[fk].get("kind") == "Closure":
+            continue
+        ret_ = b_.expr_local(0)
+        if contains_call(ret_, lambda m: m in ("std::fs::read", "std::fs::read_to_string")) is not None or repr(apath(ret_)[0]) in _local_taint(b_) \
+                or any(repr(x) in _local_taint(b_) for x in ret_.walk()):
+            file_fns.add(fk)
+    tainted_params = set()
+    prog.callgraph()
+    for _round in range(3):
+        for fk in sorted(reach):
+            b_ = prog.body(fk)
+            tl_ = _local_taint(b_)
+            for (bb_, t_) in b_.calls():
+                n_ = callee_name(t_)
+                if n_ not in prog.fns:
+                    continue
+                for ai_, a_ in enumerate(t_["args"], start=1):
+                    if a_["k"] == "const":
+                        continue
+                    e_ = b_.expr_operand(a_)
+                    root_ = apath(e_)[0]
+                    if contains_call(e_, lambda m: m in file_fns or m in ("std::fs::read", "std::fs::read_to_string")) is not None or repr(root_) in tl_ \
+                            or (root_.k == "arg" and (fk, root_.a[0]) in tainted_params):
+                        tainted_params.add((n_, ai_))
     for fk in sorted(reach):
         b = prog.body(fk)
         # tainted buffers: locals passed as &mut to read_to_end / results of fs::read
@@ -120,7 +156,9 @@ def run(ctx):
             if "HashMap" in n or "serde_json::value" in n:
                 continue
             recv = b.expr_operand(t["args"][0])
-            is_file = contains_call(recv, lambda m: m in ("std::fs::read", "std::fs::read_to_string")) is not None or repr(apath(recv)[0]) in tainted_locals
+            root0 = apath(recv)[0]
+            is_file = contains_call(recv, lambda m: m in ("std::fs::read", "std::fs::read_to_string") or m in file_fns) is not None or repr(root0) in tainted_locals \
+                or (root0.k == "arg" and (fk, root0.a[0]) in tainted_params)
             if not is_file:
                 continue
             n_ix += 1
